@@ -211,6 +211,13 @@ SCENARIOS = [
     dict(prop="C06", name="D110 removal applied a second time with -N to the empty file --posix left", tree={b"a": b""}, argv=[b"-N", b"-i", b"p.diff"],
          patch=b"--- a\n+++ a\n@@ -1,2 +0,0 @@\n-x\n-y\n",
          expect=lambda r: _exp(r.exit == 1 and files(r).get(b"a") == b"", f"a patch which was skipped removed the (empty) file (exit {r.exit}, tree {sorted(files(r))})")),
+    dict(prop="C04", name="D111 a hunk empties the file, a later one fails (diff -U0)", tree={b"f": b"b\n"}, argv=[b"-f", b"--no-backup-if-mismatch", b"-i", b"p.diff"],
+         patch=b"--- f\n+++ f\n@@ -1 +0,0 @@\n-b\n@@ -3 +2 @@\n-a\n+Z\n",
+         expect=lambda r: _exp(r.exit == 1 and files(r).get(b"f", b"") == b"" and b"-a" in files(r).get(b"f.rej", b"") and b"-b" not in files(r).get(b"f.rej", b""),
+                               f"hunk 1 was reported as applied but its line is still in the file (f = {files(r).get(b'f')!r})")),
+    dict(prop="C18", name="D111 failing removal of an empty file with -b", tree={b"f": b""}, argv=[b"-f", b"-b", b"-i", b"p.diff"],
+         patch=b"--- f\n+++ /dev/null\n@@ -1 +0,0 @@\n-a\n",
+         expect=lambda r: _exp(r.exit == 1 and files(r).get(b"f") == b"" and files(r).get(b"f.orig") == b"", f"no backup although -b was given and the file was written (tree {sorted(files(r))})")),
     # ---- recorded in round three ----------------------------------------------------------------------------------------------------------
     dict(prop="C01", name="D86 first line of the first hunk is an empty line", tree={b"f": b"\nb\nc\n"}, argv=[b"-i", b"p.diff"],
          patch=b"--- f\n+++ f\n@@ -1,3 +1,3 @@\n\n-b\n+B\n c\n",
